@@ -91,6 +91,8 @@ where
             })
             .reduce(<V>::min)
             .unwrap();
+        // the exact bound is never negative; a negative value is rounding residue (NaN is kept)
+        let u = if u < V::zero() { V::zero() } else { u };
         let b = MArr2::from_fn(|d| p[d] - a[d] * u);
         Opinion::new(b, u, a)
     }
@@ -116,6 +118,8 @@ where
             })
             .reduce(<V>::min)
             .unwrap();
+        // the exact bound is never negative; a negative value is rounding residue (NaN is kept)
+        let u = if u < V::zero() { V::zero() } else { u };
         let b = MArr3::from_fn(|d| p[d] - a[d] * u);
         Opinion::new(b, u, a)
     }
